@@ -23,7 +23,19 @@ claimed = {
    text="Move strings of every class (legal, pinned piece, wrong/missing/superfluous promotion letter, 64x64x6, malformed) are fed to find_uci/make_uci/uci_to_pgn/pgn_to_bb and make_all_uci gets lists with a rejected move at index j; Ok iff legal per reference; after Err the full snapshot is unchanged, and because the board lives on any residue is caught by the next cross-check.", ref="5/C13"),
  "C14": dict(cat="exploration", tech="seeded simulation with SAN log/replay vs. reference SAN writer",
    text="For all legal moves of every visited position uci_to_pgn equals the reference canonical SAN and pgn_to_bb inverts it; SAN-looking non-moves are rejected; the SAN log of each run is replayed from the initial position through pgn_to_bb and must land on the live position.", ref="5/C14"),
+ "C07": dict(cat="exploration", tech="deterministic simulation of the whole UCI engine: lock-step scheduler over the 3 real threads, simulated clock, seeded GUI with fault injection",
+   text="The real reader loop, parser, Engine::accept, mpsc channel, search thread and console writer run under a lock-step scheduler that decides which thread proceeds and at which poll (node count) each GUI line becomes visible; the clock is simulated (node cost 1 ns..100 ms, forward/backward jumps). Seeded sessions of 1-8 position/go cycles on one engine with every go-parameter subset/order, stop/quit/noise/corrupted lines during search, stop queued before go is dequeued, follow-your-own-PV games, already-threefold roots, move numbers up to 9000. Oracle per cycle: exactly one bestmove, legal in the last accepted position, inside searchmoves, never 0000 unless no legal move; no thread panic; liveness in negamax nodes after the last fault.", ref="5/C07", note="ENGINE"),
+ "C08": dict(cat="exploration", tech="EngineSim sessions with randomised knobs vs. reference alpha-beta minimax (engine's own leaf evaluation through a hook)",
+   text="Every depth-limited cycle (d<=3, and 2N-1 on reference-proven mates in N<=3) of a seeded multi-cycle session on ONE engine instance - whatever was searched before, with TT capacity down to 1, varying poll cadence and node cost - must report exactly the value of an independent fail-soft alpha-beta search without TT/killers/PV reuse over the reference move generator, and the announced move must attain it; positive mate scores must come with a legal PV of 2N-1 plies ending in mate.", ref="5/C08", note="ENGINE"),
+ "C09": dict(cat="fault_enumeration", tech="enumeration of every interruption point (poll) of a search x {stop, quit, simulated movetime expiry} under the lock-step scheduler",
+   text="For each seeded plan a dry run lists every node count at which the abort flag can be observed (poll interval 512: all plies, iterations 2..5); the plan is re-executed once per point and interrupt kind, followed by go depth 1 without position, two more interrupted searches and go depth 1 again. Oracle: at every idle point the search thread's board (read back through the hook) equals the last accepted position in all six FEN fields; follow-up depth-1 score equals the exact reference value; interrupted searches answer one bestmove equal to the first move of the last reported PV; quit joins.", ref="5/C09", note="ENGINE"),
+ "C15": dict(cat="exploration", tech="seeded corruption/duplication/truncation of lines on the GUI->engine text seam through the real reader loop (LineSim) + engine sessions",
+   text="300-600 lines per run (grammar-generated with random spacing and parameter order, token/byte-mutated, arbitrary bytes) travel through the real ConsoleUciRx read seam; each parse result is compared with a reference parser (exactly / must-be-error / unspecified); all 64x64x6 move texts round-trip; a panic is observed as what it is in production (the reader dies). One run in eight is a full engine session so that a misread shows by its effect and the session must stay live afterwards.", ref="5/C15", note="LINE"),
+ "C16": dict(cat="exploration", tech="EngineSim: two writer threads on one output stream under the lock-step scheduler, multi-cycle sessions with carried state",
+   text="Every line either thread writes in every simulated session is parsed by a reference grammar of engine->GUI messages; within each go..bestmove window depth/nodes/time never decrease (time only when no backward clock jump was injected), every PV is legal from the searched position, bestmove/ponder are the first/second move of the last reported PV, no ponder without a PV; sessions carry previous PV, ponder move, killer table and metrics across cycles (with/without ucinewgame, with/without stop, following the engine's own PV).", ref="5/C16", note="ENGINE"),
 }
+ENGINE_NOTE = ("Trusted base: lock-step scheduler (sim/src/sched.rs), reference chess model, reference UCI grammars (sim/src/uciref.rs). Assumes a protocol-conformant GUI, poll-interval knob >= 512 (keeps 'iteration 1 completes before the first poll' true as with the shipped 100000), and that all cross-thread effects go through the mpsc channel and the UciTx sink. engine_app/src/main.rs is mirrored, not executed; setoption is parsed but not dispatched (todo!() in Engine::accept).")
+LINE_NOTE = ("Trusted base: reference UCI parser sim/src/uciref.rs (written from the UCI text + behaviours pinned by the existing parser tests). Separators are blanks only; grey-area syntax (signs, leading zeros, tabs, upper-case promotion letters) is classified Unspecified: only no panic and no change of command kind is demanded there.")
 NA = {
  "C04": "pure total function of (square, occupancy) over a finite const table: no schedule, clock, I/O, fault, history or configuration reaches it; deciding it is exhaustive enumeration (a different technique). BoardSim only reports incidental reach.",
 }
@@ -39,7 +51,7 @@ for i in ids:
             "replay_cmd_template": "./run replay {path}",
             "engine": "sim",
             "level_claimed": {"category": c["cat"], "text": c["text"], "design_ref": "DESIGN.md section " + c["ref"]},
-            "level_note": c.get("note", BOARD_NOTE),
+            "level_note": {"ENGINE": ENGINE_NOTE, "LINE": LINE_NOTE}.get(c.get("note"), BOARD_NOTE),
             "technique": c["tech"],
         })
 na = [{"property_id": i, "reason": NA.get(i, "check not built yet (work in progress in this session)")} for i in ids if i not in claimed]
